@@ -20,7 +20,7 @@ FLAVOUR = "asan"
 TIMEOUT = 240
 OUTCOME_IN_MODEL = True   # a crash of the real code is an outcome class the driver compares with the model (`ub`)
 RULE = ("reader x file-state matrix (exhaustive) + grammar / malformed contents; main-loop runs with single faults for "
-        "every control file of target and non-target cgroups, removal / re-creation at open index k, DT_UNKNOWN, missing "
+        "every control file of target and non-target cgroups, removal / re-creation at open index k, an entry vanishing between readdir() and the next access to it, DT_UNKNOWN, missing "
         "optional keys. non-trivial = a fault was actually injected on a path the tick reads (tick level) or the reader "
         "saw a non-well-formed state (reader level)")
 ASSUMPTIONS = [
@@ -203,6 +203,12 @@ def gen(rng, tier):
                 strip(ch)
         strip(t)
         yield tick_scenario(kp, tree=t, recursive=True)
+    # an entry vanishes between readdir() and the next access to it (fstatat without d_type, openat with)
+    for ki, kp in enumerate(KILLERS):
+        for path in ("workload/a", "workload/b", "workload/a/x", "workload/c", "system/db", "workload", "workload/a/memory.current"):
+            for t in ((0, 1, 2) if tier != "quick" else ((ki + len(path)) % 3,)):
+                for dt in (True, False):
+                    yield tick_scenario(kp, recursive=True, dtype=dt, faults=[{"tick": t, "at_open": -1, "op": "vanish_on_readdir", "path": path}])
     # removal / re-creation at open index k
     for kp in KILLERS:
         opens = baseline_opens(kp)
